@@ -4,18 +4,19 @@
 //   shapes:  0: S0   1: S1>S0   2: C2>S1>S0   3: C1>S0   4: S2>C1>S0   5: S1>W0   6: C2>S1>W0   7: S1>M   8: C2>S1>M
 //            (S serial, C concurrent, W workloop, M the main queue: thread 0 sits in dispatch_main(), a client thread submits)
 //   placement: bit i set = key K has a value on level i (value 'a'+i); nearest level from the top wins
-//   paths: async, sync, barrier_async, barrier_sync, async_and_wait, apply(2), block async
+//   paths: async, sync, barrier_async, barrier_sync, async_and_wait, apply(2), block async, async to the suspended queue + 2 fillers + resume
 //   assertion mode: 0 = every assert that must hold is executed (dispatch_assert_queue on each queue of
 //   the chain, dispatch_assert_queue_not on an unrelated queue X and on queues outside the chain);
 //   1..depth = dispatch_assert_queue_not(level) must trap; depth+1 = dispatch_assert_queue(X) must trap.
 #include "hcommon.h"
 #include <dispatch/private.h>
 
-static const int DEPTH[] = { 1, 2, 3, 2, 3, 2, 3, 2, 3 };
-#define NSHAPE 9
-static const char *const SHAPE[] = { "S0", "S1>S0", "C2>S1>S0", "C1>S0", "S2>C1>S0", "S1>W0 (workloop at the bottom)", "C2>S1>W0 (workloop at the bottom)", "S1>M (main queue at the bottom)", "C2>S1>M (main queue at the bottom)" };
-static const char *const PATH[] = { "dispatch_async_f", "dispatch_sync_f", "dispatch_barrier_async_f", "dispatch_barrier_sync_f", "dispatch_async_and_wait_f", "dispatch_apply_f(2)", "dispatch_async of a block" };
-#define NPATH 7
+static const int DEPTH[] = { 1, 2, 3, 2, 3, 2, 3, 2, 3, 1 };
+#define NSHAPE 10
+static const char *const SHAPE[] = { "S0", "S1>S0", "C2>S1>S0", "C1>S0", "S2>C1>S0", "S1>W0 (workloop at the bottom)", "C2>S1>W0 (workloop at the bottom)", "S1>M (main queue at the bottom)", "C2>S1>M (main queue at the bottom)", "C0 (a concurrent queue on the default target: its items run on pool workers while another thread may hold its drain lock)" };
+static const char *const PATH[] = { "dispatch_async_f", "dispatch_sync_f", "dispatch_barrier_async_f", "dispatch_barrier_sync_f", "dispatch_async_and_wait_f", "dispatch_apply_f(2)", "dispatch_async of a block",
+	"dispatch_async_f to the suspended top queue, two more items queued behind it, then dispatch_resume (the drainer is still handing items out while the first one runs)" };
+#define NPATH 8
 typedef struct { int shape, mask, path, mode; } var;
 #define MAXV 2048
 static var V[MAXV];
@@ -66,6 +67,7 @@ static void item_fn(void *ctx) { (void)ctx; body(0); }
 static void apply_fn(void *ctx, size_t i) { (void)ctx; body((int)i); }
 static void warm_fn(void *c) { *(int *)c = 1; }
 static char VAL[3] = { 'a', 'b', 'c' };
+static int g_fill[2];
 static void submit(dispatch_queue_t top);
 static void submit_and_end(void *top);
 
@@ -89,13 +91,13 @@ static void run(int vi)
 	int depth = DEPTH[v->shape];
 	vx_set_horizon(12ull * 1000000000ull);
 	X = dispatch_queue_create("vx.spec.x", NULL);
-	Q[0] = v->shape >= 7 ? dispatch_get_main_queue() : v->shape >= 5 ? (dispatch_queue_t)dispatch_workloop_create("vx.spec.0") : dispatch_queue_create("vx.spec.0", NULL);
+	Q[0] = v->shape == 9 ? dispatch_queue_create("vx.spec.0", DISPATCH_QUEUE_CONCURRENT) : v->shape >= 7 ? dispatch_get_main_queue() : v->shape >= 5 ? (dispatch_queue_t)dispatch_workloop_create("vx.spec.0") : dispatch_queue_create("vx.spec.0", NULL);
 	if (depth >= 2) Q[1] = dispatch_queue_create_with_target("vx.spec.1", (v->shape == 3 || v->shape == 4) ? DISPATCH_QUEUE_CONCURRENT : DISPATCH_QUEUE_SERIAL, Q[0]);
 	if (depth >= 3) Q[2] = dispatch_queue_create_with_target("vx.spec.2", (v->shape == 4) ? DISPATCH_QUEUE_SERIAL : DISPATCH_QUEUE_CONCURRENT, Q[1]);
 	for (int i = 0; i < depth; i++) if (v->mask & (1 << i)) dispatch_queue_set_specific(Q[i], &KEY, &VAL[i], NULL);
 	dispatch_queue_set_specific(X, &KEY, &VAL[0], NULL);   // must never be seen from the hierarchy
 	dispatch_queue_t top = Q[depth - 1];
-	if (v->shape >= 7) {
+	if (v->shape == 7 || v->shape == 8) {
 		// the main queue only drains once thread 0 has entered dispatch_main(): a client thread submits and ends the execution
 		vx_focus_begin();
 		vx_thread(submit_and_end, top);
@@ -119,6 +121,12 @@ static void submit(dispatch_queue_t top)
 	case 4: dispatch_async_and_wait_f(top, NULL, item_fn); break;
 	case 5: dispatch_apply_f(2, top, NULL, apply_fn); want = 2; break;
 	case 6: dispatch_async(top, ^{ body(0); }); break;
+	case 7:
+		dispatch_suspend(top);
+		dispatch_async_f(top, NULL, item_fn);
+		dispatch_async_f(top, &g_fill[0], warm_fn); dispatch_async_f(top, &g_fill[1], warm_fn);
+		dispatch_resume(top);
+		break;
 	}
 	int *b[2] = { &g_done, (int *)(intptr_t)want };
 	vx_wait_until(pred_int_ge, b);
